@@ -128,6 +128,7 @@ def enumerate_faults(world, opts, facts):
             out.append({"class": "structure", "kind": "spurious_table_end", "sheet": name, "table": tt})
             if t["rows"]:
                 out.append({"class": "structure", "kind": "repeat_table", "sheet": name, "table": tt})
+                out.append({"class": "structure", "kind": "repeat_table_other_case", "sheet": name, "table": tt})
                 out.append({"class": "structure", "kind": "data_outside_table", "sheet": name, "table": tt, "row": len(t["rows"]) - 1})
                 out.append({"class": "structure", "kind": "delete_header", "sheet": name, "table": tt})
         out.append({"class": "structure", "kind": "delete_in_table", "sheet": name})
@@ -600,10 +601,12 @@ def _apply_grid_op(world, sheet, grid, index, op):
         del grid[index[(tt, "end")]:]  # the sheet ends inside the last table
     elif kind == "spurious_table_end":
         grid.insert(index[(tt, "end")] + 1, ["TABLE END"] + [None] * (width - 1))
-    elif kind == "repeat_table":
+    elif kind in ("repeat_table", "repeat_table_other_case"):
         t = _find_table(sheet, tt)
         grid.append([None] * width)
-        grid.append([tt] + [None] * (width - 1))
+        first = str(grid[index[(tt, "begin")]][0])
+        kw = tt if kind == "repeat_table" else (first.lower() if first != first.lower() else first.title())
+        grid.append([kw] + [None] * (width - 1))
         grid.append(W.header_cells(world, tt))
         for r in t["rows"]:
             grid.append(W.row_cells(world, tt, r))
